@@ -768,6 +768,9 @@ func Make(name string) (*core.Workspace, error) {
 		}
 		ws.Paths[ChildPath] = child
 		ws.Order = append(ws.Order, ChildPath)
+		if c.FailChild {
+			ws.FailPaths = map[string]bool{ChildPath: true}
+		}
 	}
 	return ws, nil
 }
@@ -776,6 +779,9 @@ type config struct {
 	Root  map[string]string
 	Child map[string]string
 	Twin  bool // a second root path with the same files
+	// FailChild: the child path exists for the schema (module source) but its
+	// PathContext cannot be read (module not loaded) - W8 fault
+	FailChild bool
 }
 
 // TwinPath is the second root of the "twins" fixtures.
